@@ -162,7 +162,7 @@ func c20g2Authenticated(c *eng.Ctx) {
 					if k, ok := c17strip(ret.Results[len(ret.Results)-1]).(*ssa.Call); ok {
 						for _, ct := range h.cuts {
 							for _, g := range ct.guards {
-								for _, cl := range eng.Calls(f, g) {
+								for _, cl := range c17calls(f, g) {
 									through = through || cl.Value() == k
 								}
 							}
@@ -183,7 +183,7 @@ func c20g2Authenticated(c *eng.Ctx) {
 			sinks = eng.NonNilResultReturns(f, 0)
 			sinkDesc = "key handed to the caller"
 		default:
-			sinks = instrsOf(eng.Calls(f, h.sinks))
+			sinks = instrsOf(c17calls(f, h.sinks))
 		}
 		if h.sinks == "success" && len(sinks) == 0 {
 			// pass-through only: nothing to cut, the key provenance is still checked
@@ -211,13 +211,13 @@ func c20g2Authenticated(c *eng.Ctx) {
 				assume = nil
 			}
 			for _, g := range ct.guards {
-				c.Cut(f, sinkDesc+ifs(ct.when != "", " ("+ct.when+")"), sinks, eng.GCallOK(f, g), assume)
+				c.Cut(f, sinkDesc+ifs(ct.when != "", " ("+ct.when+")"), sinks, nfGCallOK(f, g), assume)
 			}
 		}
 		// what is authenticated is the key rebuilt from the shares
 		c.Clause("R5", "C20.6")
 		for _, k := range h.keys {
-			for _, cl := range eng.Calls(f, k.call) {
+			for _, cl := range c17calls(f, k.call) {
 				var v ssa.Value
 				if k.idx < 0 {
 					v = c20g2lastArg(cl)
@@ -280,13 +280,13 @@ func c20g2Authenticated(c *eng.Ctx) {
 		if f == nil {
 			continue
 		}
-		sinks := eng.Calls(f, h.sinks)
+		sinks := c17calls(f, h.sinks)
 		if !c.Floor(f, "perform the verified rotation", len(sinks), 2) {
 			continue
 		}
 		findCmp := func(g *ssa.Function) []ssa.Value {
 			var out []ssa.Value
-			for _, cl := range eng.Calls(g, `^crypto/subtle\.ConstantTimeCompare$`) {
+			for _, cl := range c17calls(g, `^crypto/subtle\.ConstantTimeCompare$`) {
 				a0, a1 := c17arg(cl, 0), c17arg(cl, 1)
 				for _, p := range [][2]ssa.Value{{a0, a1}, {a1, a0}} {
 					if ok, _ := c20g2rebuilt(p[0]); ok && c17loadOf(vk)(p[1]) {
@@ -370,15 +370,15 @@ func c20g2UnsealStops(c *eng.Ctx) {
 			continue
 		}
 		uf := c17one(f, `^vault\.\(\*SealManager\)\.unsealFragment$`)
-		sinks := eng.Calls(f, h.sinks)
-		k2r := eng.Calls(f, `^vault\.\(\*SealManager\)\.unsealKeyToRootKey$`)
+		sinks := c17calls(f, h.sinks)
+		k2r := c17calls(f, `^vault\.\(\*SealManager\)\.unsealKeyToRootKey$`)
 		if uf == nil || !c.Floor(f, "unseal of the barrier", len(sinks), h.floor) || !c.Floor(f, "unsealKeyToRootKey", len(k2r), 1) {
 			continue
 		}
 		key := eng.ResultValue(uf, 0)
 		c.Clause("R2", "C20.3")
 		all := append(instrsOf(sinks), instrsOf(k2r)...)
-		c.Cut(f, "root-key lookup / barrier unseal", all, eng.GCallOK(f, `^vault\.\(\*SealManager\)\.unsealFragment$`), nil)
+		c.Cut(f, "root-key lookup / barrier unseal", all, nfGCallOK(f, `^vault\.\(\*SealManager\)\.unsealFragment$`), nil)
 		c.Cut(f, "root-key lookup / barrier unseal", all, c17guard("the threshold gate returned a key (unsealFragment()#0 != nil)", c17rel(f, true, c17is(key), eng.IsNilConst, false)), nil)
 		var direct []ssa.Instruction
 		for _, s := range sinks {
@@ -386,7 +386,7 @@ func c20g2UnsealStops(c *eng.Ctx) {
 				direct = append(direct, s)
 			}
 		}
-		c.Cut(f, "barrier unseal", direct, eng.GCallOK(f, `^vault\.\(\*SealManager\)\.unsealKeyToRootKey$`), nil)
+		c.Cut(f, "barrier unseal", direct, nfGCallOK(f, `^vault\.\(\*SealManager\)\.unsealKeyToRootKey$`), nil)
 		c.Clause("R5", "C20.3")
 		var pv []c17pv
 		for _, k := range k2r {
@@ -430,7 +430,7 @@ func c20g2ProgressDiscarded(c *eng.Ctx) {
 	}
 	isDiscard := func(fn *ssa.Function) []ssa.Instruction {
 		var out []ssa.Instruction
-		for _, d := range eng.Calls(fn, `^delete$`) {
+		for _, d := range c17calls(fn, `^delete$`) {
 			if c17loadOf(umap)(c17arg(d, 0)) {
 				out = append(out, d)
 			}
@@ -497,7 +497,7 @@ func c20g2Rows(c *eng.Ctx) {
 		}
 		c.Floor(f, "allocation of the share list", n, 1)
 		// every branch that decides whether the evaluation block runs (again) compares a counter with `parts`
-		evs := eng.Calls(f, `^shamir\.\(\*polynomial\)\.evaluate$`)
+		evs := c17calls(f, `^shamir\.\(\*polynomial\)\.evaluate$`)
 		if c.Floor(f, "evaluate call", len(evs), 1) {
 			blk := evs[0].Block()
 			n, bad := 0, false
